@@ -312,7 +312,7 @@ def c06(tier: str) -> int:
 # C07: supply routes
 # ---------------------------------------------------------------------------
 ROUTES = ['xml', 'gz', 'xz', 'pkg', 'coll', 'tar', 'tar.gz', 'tar.xz', 'tarpkg', 'tarpkg.gz',
-          'tarpkg.xz', 'tarcoll.xz', 'mem', 'gz2', 'xz2']
+          'tarpkg.xz', 'tarcoll.xz', 'mem', 'gz2', 'xz2', 'sq']
 
 
 def project_trees(rng, n):
